@@ -803,7 +803,64 @@ func c15DirectedMulti(c *vc.Ctx, s0 *Host, liveNs []int, eng string) map[string]
 	return firedSig
 }
 
+// c15MalformedKey: a multi-key EXISTS / DEL that names a malformed key (no
+// table separator) next to good ones. One store: a key that cannot exist is
+// never counted; the command may also be refused as a whole.
+func c15MalformedKey(c *vc.Ctx, s0 *Host, liveNs []int, eng string) {
+	conn, err := Dial(s0.Addr(), 20*time.Second)
+	if err != nil {
+		c.Inconclusive("d: dial: " + err.Error())
+		return
+	}
+	defer conn.Close()
+	fired := map[string]bool{}
+	for _, n := range liveNs {
+		ns := "p" + strconv.Itoa(n)
+		good, absent := ns+":mkbad:good", ns+":mkbad:absent"
+		for _, bad := range []string{ns + ":badkey", ns + ":", ns + ":mkbad"} {
+			if rp, err := conn.DoS("SET", good, "v"); err != nil || rp.IsErr() {
+				c.Inconclusive(fmt.Sprintf("d: SET %s: %v %s", good, err, rp.Short(60)))
+				return
+			}
+			for _, st := range []struct {
+				cmd  []string
+				want string // the count when the command is not refused
+			}{
+				{[]string{"EXISTS", good, bad}, ":1"},
+				{[]string{"EXISTS", bad, good}, ":1"},
+				{[]string{"EXISTS", absent, bad}, ":0"},
+				{[]string{"EXISTS", bad, bad, good}, ":1"},
+				{[]string{"DEL", absent, bad}, ":0"},
+				{[]string{"DEL", bad, good}, ":1"},
+			} {
+				rs, err := conn.DoFramed(B(st.cmd...))
+				if err != nil {
+					c.Inconclusive("d: " + err.Error())
+					return
+				}
+				got := renderReplies(rs)
+				c.Ev.Eval()
+				c.Ev.Count("d_malformed_key_cases", 1)
+				c.Ev.Nontrivial(fmt.Sprintf("d-malformed/%s/%d/%d", st.cmd[0], n, len(st.cmd)))
+				if n == liveNs[0] || n == 3 {
+					c.Ev.Sample(40, map[string]interface{}{"part": "d-malformed", "cmd": qargv(B(st.cmd...)), "reply": cut(got, 100)})
+				}
+				if (len(rs) == 1 && rs[0].IsErr()) || got == st.want {
+					continue
+				}
+				sig := "multikey-malformed-key-counted/" + st.cmd[0]
+				if !fired[sig] {
+					fired[sig] = true
+					c.Violation(sig, fmt.Sprintf("%v on %d partition(s) answers %s: the malformed key %q (no table / key part) is counted; one store answers %s or refuses the command", st.cmd, n, got, bad, st.want),
+						c15Witness{Part: "d", Engine: eng, N: n, Commands: [][]string{qargv(B("SET", good, "v")), qargv(B(st.cmd...))}, Detail: map[string]interface{}{"reply": got, "one_store_reply": st.want}})
+				}
+			}
+		}
+	}
+}
+
 func c15MultiKey(c *vc.Ctx, s0 *Host, liveNs []int, eng string) {
+	c15MalformedKey(c, s0, liveNs, eng)
 	directed := c15DirectedMulti(c, s0, liveNs, eng)
 	count := c.Pick(300, 3000)
 	ops := genMkOps(c.Rand(5000), count)
